@@ -1,8 +1,11 @@
 """C08 - query strings parse to one well-defined mapping; typed getters never misreport."""
 PROP = 'C08'
-LEAN_MODULES = ['FalconModel.QueryProofs', 'FalconModel.UriEncodeProofs']
+LEAN_MODULES = ['FalconModel.QueryProofs', 'FalconModel.QueryRef', 'FalconModel.UriEncodeProofs']
 DRIVERS = ['qsdriver']
 THEOREMS = [
+    # the parser model equals the reference reading for EVERY query string and option setting (FalconModel/QueryRef.lean)
+    'Qs.parseQS_eq_ref', 'Qs.parseQS_keys_nodup', 'Qs.csv_off_never_splits', 'Qs.addField_true_eq', 'Qs.addEntry_refOf',
+    'Qs.foldl_addField_true', 'Qs.foldl_flag_irrelevant',
     # parse_query_string model (FalconModel/Query.lean) - structural facts proved for it
     'Qs.addField_blank', 'Qs.splitOn_no_sep', 'Qs.partitionEq_first', 'Qs.parseQS_single_field', 'Qs.parseQS_blank_field',
     'Qs.parseQS_encoded_pair',
@@ -12,6 +15,8 @@ THEOREMS = [
     'Uri.decode_encode_value', 'Uri.encodeValue_grammar', 'Uri.encodeWith_charset',
 ]
 STATEMENTS = {
+    'Qs.parseQS_eq_ref': 'for every byte string and both option flags the parser model (whole-string is_encoded flag, accumulate-by-lookup loop) equals parseRef: fields split on "&", each split at the first "=", blank rule, names/values decoded, CSV split on literal commas only when enabled, names in order of first occurrence, a name is scalar iff it occurs once and not as a CSV list, otherwise all its values in order',
+    'Qs.foldl_flag_irrelevant': 'the whole-string "anything encoded?" fast-path flag never changes the result',
     'Qs.parseQS_single_field': 'a query string that is one field k=v (k without "&" and "=", v non-empty without "&", and either CSV parsing off or no literal comma in v) parses to exactly the one scalar pair (decode k, decode v): the split is at the FIRST "=", an encoded comma (%2C) never splits',
     'Qs.parseQS_blank_field': 'a single field with an empty value (k or k=) yields no parameter when blank values are dropped or the name is empty',
     'Qs.parseQS_encoded_pair': 'to_query_str round trip for one pair: for all byte strings k and v (v non-empty) and both option settings, parsing encode_value(k) "=" encode_value(v) gives exactly [(utf8(k), utf8(v))]',
@@ -39,9 +44,8 @@ RULE = ('ALL strings of length <= 4 (quick) / <= 5 (thorough) over {& = , + % 4 
         'On every request object (for the length-5 strings: on one of the two request classes, alternating) every typed getter is called for every name present and one absent name with required/default/store/min/max variations. '
         'Random dictionaries go through to_query_str and back (both list styles, direct and via request objects). '
         'non-trivial = the reference mapping is non-empty; distinct = distinct (query string, options, interface)')
-PARTIAL = ('No theorem states parseQS = reference parser for all inputs: that equality is carried by the complete enumeration (length <= 4/5) and the random correspondence against both '
-           'the Lean model and the independent reference. Proved: decode = reference (all paths), decode(encode_value) = id, and for the parser model the single-field laws '
-           '(first "=", blank rule, encoded comma never splits, one-pair to_query_str round trip). The typed getters are not modelled in Lean: oracle only.')
+PARTIAL = ('Proved for all inputs: parser model = reference reading (parseQS_eq_ref), decode = reference (all code paths), decode(encode_value) = id, single-field laws. '
+           'The bytes->str step (UTF-8 with replacement, Utf8 model) and the typed getters are not proved: they are tied by the exhaustive/random correspondence and judged by the oracle.')
 JOBS = {'quick': 4, 'thorough': 16}
 
 ALPHABET = ['&', '=', ',', '+', '%', '4', 'a', 'g', '\x00', 'é']
